@@ -14,6 +14,10 @@ TRUSTED_BASE = [
 ]
 
 PLAN = {
+    "C19": {
+        "level": "exploration",
+        "bounded": ["bounded.c19"],
+    },
     "C08": {
         "level": "exploration",
         "bounded": ["bounded.c08"],
